@@ -174,7 +174,7 @@ def split_segments(lines):
     return segs
 
 
-def validate_lines(trace_module, cfg, raw_lines, label, timeout=900, heap="3g"):
+def validate_lines(trace_module, cfg, raw_lines, label, timeout=900, heap="3g", coverage=False):
     """Munge and validate raw trace lines.  Returns dict(accepted, reject_index (0-based into raw_lines or None),
     rejects, nevents)."""
     os.makedirs(os.path.join(BUILD, "tr"), exist_ok=True)
@@ -188,7 +188,7 @@ def validate_lines(trace_module, cfg, raw_lines, label, timeout=900, heap="3g"):
             f.write(json.dumps(e, separators=(",", ":")) + "\n")
     n = len(ev)
     for attempt in (1, 2):
-        rc, out, wall = tlc(trace_module, cfg, workers=1, timeout=timeout, env={"TRACE": mfile}, heap=heap)
+        rc, out, wall = tlc(trace_module, cfg, workers=1, timeout=timeout, env={"TRACE": mfile}, heap=heap, coverage=coverage)
         r = parse_tlc(out)
         if r["parse_error"] or r.get("timeout") or (r["generated"] == 0 and not r["errors"]):
             if attempt == 2:
@@ -197,6 +197,8 @@ def validate_lines(trace_module, cfg, raw_lines, label, timeout=900, heap="3g"):
         break
     os.remove(mfile)
     res = {"nevents": n, "wall_s": round(wall, 1), "rejects": r["rejects"], "errors": r["errors"], "knowns": r["knowns"]}
+    if coverage:
+        res["coverage_out"] = out[out.rfind("The coverage statistics"):]
     if r["accepted"] and not r["errors"]:
         res["accepted"], res["reject_index"] = True, None
         return res
